@@ -1767,6 +1767,16 @@ def gen_c14_form(rng, out_p):
         return ["dash", "%s-%d" % (nm(), rng.randrange(3, 7))]
     if r < 0.5:
         return ["note", nm(), rng.randrange(3, 7)]
+    if rng.random() < 0.05:
+        # big chords (five and six notes: six is as many as a guitar has strings)
+        k = rng.choice([5, 6, 6])
+        seen, out = set(), []
+        while len(out) < k:
+            n, o = nm(), rng.randrange(4, 7)
+            if score.pitch_of(n, o) not in seen:
+                seen.add(score.pitch_of(n, o))
+                out.append([n, o])
+        return rng.choice([["notes", out], ["dashes", ["%s-%d" % (n, o) for n, o in out]]])
     if r < 0.58:
         return ["names", sorted(set(nm() for _ in range(rng.randrange(1, 4))))]
     if r < 0.64:
@@ -2331,7 +2341,7 @@ DESCR = {
         "rule": "Each run is one seeded history on up to three tracks and one composition: Track(instrument) for none/Instrument/Piano/Guitar/MidiInstrument, add_notes with notes, chords and rests in and out of range, track + x, add_bar (only when the track is empty or its last bar is full), from_chords with nested lists and None rests, composition add_track / + / add_note / selected_tracks, and protocol queries (len, indexing, equality against a twin rebuilt from the same items, test_integrity). The acceptance decision is read from what the call reported (the capacity rule is C13's). Non-trivial = at least two operations applied. Distinct = distinct run shape.",
         "clauses": ["C14.iterate", "C14.reject_atomic", "C14.integrity", "C14.inherit", "C14.conservation", "C14.rest_instrument", "C14.range", "C14.from_chords", "C14.selection", "C14.protocol"],
         "probes": ["library_opened_a_bar", "item_refused", "rejected_item_left_fresh_empty_bar", "note_out_of_range", "rest_with_instrument", "from_chords_item_split", "several_tracks_selected", "some_track_not_selected", "composition_equality_checked", "fullness_dont_care_band", "model_resync"],
-        "assumptions": ["'full' follows C13's tolerance: with an exact remainder in (0, 0.002] either behaviour is accepted and the model follows the observed one", "a freshly opened empty last bar after a rejected item is tolerated iff the previous last bar was full", "Guitar chords of more than six notes are not generated (the statement does not mention the string limit)"],
+        "assumptions": ["'full' follows C13's tolerance: with an exact remainder in (0, 0.002] either behaviour is accepted and the model follows the observed one", "a freshly opened empty last bar after a rejected item is tolerated iff the previous last bar was full", "Guitar chords of more than six notes are not generated (the statement does not mention the string limit); five- and six-note chords are"],
     },
     "C12": {
         "rule": "Each run is one seeded history on up to three NoteContainers: every addition form (Note object, bare name, name+octave, 'Name-octave', lists mixing those, [name, octave(, dynamics)] rows, another container, '+', the constructor), every removal form (name, name+octave, Note, lists, '-'), empty, the chord/interval/progression shorthand constructors, malformed additions, and queries (len, in, ==, get_note_names, the four consonance predicates with both flag values), against an insertion-ordered pitch->spelling set model. Non-trivial = at least two operations applied. Distinct = distinct run shape.",
